@@ -141,6 +141,9 @@ func (w *Writer) WriteMessage(message any, codec Codec) (err error) {
 	messageDesc := QueryMessageDesc(message)
 
 	if messageDesc.IsOutside() {
+		if codec == nil {
+			return fmt.Errorf("cannot write message %T: not a registered message and no codec configured", message)
+		}
 		data, encErr := codec.Encode(message)
 		if encErr != nil {
 			return encErr
